@@ -15,15 +15,16 @@ from vf.model import regex as R
 
 ID = "C13"
 LEVEL = "exploration"
-TECHNIQUE = "reference-model monitor (derivative matcher + Python re) on the real match/nfa_match/starts_with, " \
+TECHNIQUE = "reference-model monitor (polynomial matcher, cross-checked with derivatives and Python re) on the real match/nfa_match/starts_with, " \
             "bounded-exhaustive pattern trees x sequences, step-budget monitor for termination"
 RULE = ("cases are (pattern tree, input sequence) pairs; trees enumerated exhaustively up to the size bound over "
         "{a,b,c} and de-duplicated by the expression they translate to, sequences exhaustively up to the length "
         "bound, plus seeded random larger trees/sequences; a case is non-trivial when the tree has at least one "
         "operator and the sequence is non-empty; distinct = distinct (expression, sequence) pairs, counted per "
         "shard over disjoint tree partitions")
-ASSUMPTIONS = ["the in-tree derivative matcher is correct; it is cross-checked on every case with an independent denotational "
-               "matcher and, on inputs of length <= 5, with Python's re (re is exponential on repeated nullable bodies)",
+ASSUMPTIONS = ["the in-tree polynomial reference (structural recursion over ends / viable prefixes) is correct; it is cross-checked "
+               "with a Brzozowski-derivative matcher on all patterns of <= 9 nodes and with Python's re on patterns of <= 7 nodes and "
+               "inputs of <= 6 letters (both blow up on large nested repetitions, so they are not used there)",
                "atoms are Identity predicates on distinct letters (pairwise disjoint), as the property requires"]
 BOUNDS = {"quick": dict(tree=5, seq=4, rand=24000, rsize=14, rlen=12, n=32, ab_tree=0, ab_seq=0, large=14),
           "thorough": dict(tree=6, seq=5, rand=600000, rsize=16, rlen=14, n=64, ab_tree=8, ab_seq=5, large=200)}
@@ -89,11 +90,15 @@ class Monitors:
             except Exception as e:
                 ctx.violation("exception", case, {"call": "construct", "error": f"{type(e).__name__}: {e}"})
                 return
-        exp = R.member(tree, seq)
-        pre = R.shortest_nonempty_prefix(tree, seq)
-        if exp != R.ends_member(tree, seq) or pre != R.ends_shortest_nonempty_prefix(tree, seq):
-            ctx.inconclusive.append(f"references (derivative vs denotational) disagree: {show(tree)} {seq}")
-            return
+        # primary reference: polynomial structural recursion; derivatives (can blow up on large nested patterns) and `re`
+        # (exponential on repeated nullable bodies) are cross-checks on the small cases only
+        exp = R.p_member(tree, seq)
+        pre = R.p_shortest_nonempty_prefix(tree, seq)
+        if R.size(tree) <= R.DERIVATIVES_ARE_CHEAP:
+            ctx.count("reference.cross_checked_with_derivatives")
+            if exp != R.member(tree, seq) or pre != R.shortest_nonempty_prefix(tree, seq):
+                ctx.inconclusive.append(f"references (polynomial vs derivative) disagree: {show(tree)} {seq}")
+                return
         if R.re_is_safe(tree, seq):
             ctx.count("reference.cross_checked_with_re")
             if exp != R.re_member(tree, seq):
@@ -128,7 +133,7 @@ class Monitors:
             ctx.count("cases.in_language")
         if pre is not None:
             ctx.count("cases.has_matching_prefix")
-        if R.nullable(tree):
+        if R.p_member(tree, ()):
             ctx.count("cases.nullable_pattern")
 
 
@@ -173,20 +178,20 @@ def run(shard, ctx):
                         mon.check(t, s, expr)
         # random larger cases (sampling)
         rng = rng_for(shard["seed"], "c13", shard["part"])
+        short_seqs = R.sequences(ALPHABET, 2)
         n = shard["rand"] // shard["parts"]
         for i in range(n):
             t = R.random_tree(rng, rng.randint(6, shard["rsize"]), ALPHABET)
             for _ in range(4):
                 if rng.random() < 0.5:
                     # a word biased towards the language: walk derivatives greedily
-                    s, d = [], t
+                    # a word biased towards the language: extend while the text stays a prefix of some word
+                    s = []
                     for _ in range(rng.randint(0, shard["rlen"])):
-                        opts = [a for a in ALPHABET if not R.is_empty_language(R.deriv(d, a))]
-                        if not opts or (R.nullable(d) and rng.random() < 0.2):
+                        opts = [a for a in ALPHABET if len(s) + 1 in R.ends_viable(t, tuple(s) + (a,), 0, {})[1]]
+                        if not opts or (R.p_member(t, s) and rng.random() < 0.2):
                             break
-                        a = rng.choice(opts)
-                        s.append(a)
-                        d = R.deriv(d, a)
+                        s.append(rng.choice(opts))
                     if rng.random() < 0.3:
                         s.append(rng.choice(ALPHABET))
                 else:
@@ -194,6 +199,15 @@ def run(shard, ctx):
                 ctx.distinct(["rand", show(t), "".join(s)])
                 ctx.count("cases.random")
                 mon.check(t, tuple(s))
+            # ... and every sequence of length <= 2: faults in the automaton's structure show on short inputs
+            if R.size(t) >= 7:
+                try:
+                    expr = to_expr(t)
+                except Exception:
+                    expr = None
+                for s2 in short_seqs:
+                    ctx.count("cases.random_short_exhaustive")
+                    mon.check(t, s2, expr)
             if i == 0:
                 ctx.sample({"pattern": show(t), "sequence": "".join(s), "random": True})
         # large patterns: "building a matcher terminates for every pattern" must not depend on patterns being small
